@@ -17,6 +17,8 @@ import (
 	"golang.org/x/tools/go/ssa/ssautil"
 )
 
+var partSuffixRe = regexp.MustCompile(`/[rce][0-9]+`)
+
 type knownFinding struct {
 	Prop, Oblig, What string
 }
@@ -184,6 +186,18 @@ func cmdCheck(id, tier string) int {
 		all = append(all, r.Obligs...)
 	}
 	dischargeAll(all, dir, timeout, cross, *flagPar)
+	// Obligations that ran out of time are retried once with a longer limit and
+	// fewer competitors, so that machine load does not turn into an alarm.
+	var retry []*Obligation
+	for _, o := range all {
+		if !o.ok() && !o.Cover && (o.Result == "timeout" || o.Result == "unknown" || o.Result == "error") {
+			retry = append(retry, o)
+		}
+	}
+	nRetried := len(retry)
+	if nRetried > 0 && nRetried <= 40 {
+		dischargeAll(retry, dir, timeout*4, false, 5)
+	}
 
 	// ---- classify ------------------------------------------------------------
 	known := loadKnownFindings(filepath.Join(*flagVerif, "known-findings.txt"))
@@ -238,10 +252,7 @@ func cmdCheck(id, tier string) int {
 		gidx := map[string]*group{}
 		for _, o := range r.Obligs {
 			solverS += o.Time
-			base := o.Name
-			if i := strings.LastIndex(base, "/r"); i >= 0 {
-				base = base[:i]
-			}
+			base := partSuffixRe.ReplaceAllString(o.Name, "")
 			g := gidx[base]
 			if g == nil {
 				g = &group{name: base}
@@ -413,6 +424,8 @@ func cmdCheck(id, tier string) int {
 			"notes":                      notes,
 			"structural_checks":          len(structRes),
 			"cross_checked":              cross,
+			"retried_after_timeout":      nRetried,
+			"slowest":                    slowest(all, 5),
 		}}
 	if err := writeJSON(evPath, ev); err != nil {
 		fmt.Println("cannot write evidence:", err)
@@ -523,4 +536,14 @@ func hasTypeParamArgs(fn *ssa.Function) bool {
 		}
 	}
 	return false
+}
+
+func slowest(obs []*Obligation, n int) []string {
+	c := append([]*Obligation(nil), obs...)
+	sort.Slice(c, func(i, j int) bool { return c[i].Time > c[j].Time })
+	var out []string
+	for i := 0; i < n && i < len(c); i++ {
+		out = append(out, fmt.Sprintf("%.2fs %s %s", c[i].Time, c[i].Result, strings.TrimPrefix(c[i].Name, modPath+"/")))
+	}
+	return out
 }
